@@ -73,7 +73,7 @@ pub fn vocab(lang: &str) -> Vec<&'static str> {
             "зеле\u{308}ный", "машина", "машинами", "хорошо", "большой", "большими",
         ],
         "xk" => vec![
-            "がっこう", "ぱん", "かばん", "ぎんこう", "の", "が", "はし", "ばしょ", "ヴァイオリン", "ウイルス", "ゟ", "ゟり", "か\u{3099}っこう",
+            "ｳﾞァイオリン", "ｳイルス", "ｳ\u{3099}ァイオリン", "がっこう", "ぱん", "かばん", "ぎんこう", "の", "が", "はし", "ばしょ", "ヴァイオリン", "ウイルス", "ゟ", "ゟり", "か\u{3099}っこう",
             "は\u{309a}ん", "き\u{3099}んこう", "ウ\u{3099}ァイオリン", "\u{fb2a}לום", "שלום", "ש\u{5c1}לום", "かっこう", "はん", "きんこう", "さくら", "すし",
             "てんぷら", "とうきょう", "おおさか", "metal", "mailbox", "がくせい", "ぱすた", "ばなな", "\u{212b}ngstrom", "\u{c5}ngstrom", "\u{1f71}λφα", "\u{3ac}λφα", "か\u{212b}",
         ],
